@@ -50,15 +50,25 @@ package detector
 //@   assert [reflexive] ovrel(a, a)
 //@ end
 
-//@ -- the spatial-ID (radix-tree) form: the tree is third-party code, assumed total (no panic on a non-empty tree)
+//@ -- the spatial-ID (radix-tree) form.  The tree is third-party code; its behaviour is ASSUMED (trusted):
+//@ -- stored(t, z, f, x, y) is the abstract state "cell (f, x, y) at zoom z was appended to tree t";
+//@ -- IsOverlap answers whether a stored cell is an ancestor, a descendant or equal to the queried cell.
+//@ ghost stored(any, int, int, int, int)
+//@ defineopaque cellrel(z1, f1, x1, y1, z2, f2, x2, y2) = anc(f1, z1 - min(z1, z2)) == anc(f2, z2 - min(z1, z2)) && anc(x1, z1 - min(z1, z2)) == anc(x2, z2 - min(z1, z2)) && anc(y1, z1 - min(z1, z2)) == anc(y2, z2 - min(z1, z2))
 //@ extern github.com/trajectoryjp/multidimensional-radix-tree/src/tree.Create3DTable
 //@ end
 //@ extern github.com/trajectoryjp/multidimensional-radix-tree/src/tree.CreateTree
 //@   ensures r0 != nil
+//@   ensures forall z, f, x, y :: !stored(r0, z, f, x, y)
 //@ end
 //@ extern invoke.TreeInterface.Append
+//@   params t index zoom value
+//@   modifies stored
+//@   ensures forall u: any, z, f, x, y :: stored(u, z, f, x, y) <==> (old(stored(u, z, f, x, y)) || (u == t && z == zoom && f == index[0] && x == index[1] && y == index[2]))
 //@ end
 //@ extern invoke.TreeInterface.IsOverlap
+//@   params t index zoom
+//@   ensures r0 <==> (exists z, f, x, y :: stored(t, z, f, x, y) && cellrel(z, f, x, y, zoom, index[0], index[1], index[2]))
 //@ end
 
 //@ func getSpatialIdAttrs
@@ -71,8 +81,10 @@ package detector
 //@ func offsetFIndex
 //@   props C05 C15
 //@   nooverflow
-//@   requires 0 <= zoom && zoom <= 35
-//@   ensures r1 == nil ==> r0 == f + ashift(16777216, zoom - 25)
+//@   split zoom 0..35
+//@   ensures [value] r1 == nil ==> r0 == f + ashift(16777216, zoom - 25)
+//@   ensures [zero-on-error] r1 != nil ==> r0 == 0
+//@   ensures [ok-when-in-range] 1 <= zoom && 0 <= f + ashift(16777216, zoom - 25) && f + ashift(16777216, zoom - 25) < pow2(zoom) ==> r1 == nil
 //@ end
 
 //@ func CheckSpatialIdsArrayOverlap
@@ -84,9 +96,44 @@ package detector
 //@   ensures [empty] len(spatialIds1) == 0 && (forall k :: 0 <= k && k < len(spatialIds2) ==> r1 == nil) ==> r0 == false
 //@ end
 
+//@ -- valid spatial IDs (zoom 1..35: the zoom-0 voxels reach beyond the documented altitude range and are rejected; altitude within +-2^24 m, i.e. -2^(z-1) <= f < 2^(z-1)): the answer is the
+//@ -- disjunction over all pairs of "one cell is an ancestor-or-equal of the other" on (f + 2^(z-1), x, y)
+//@ define sz(s: str) = val(fld(s, 0))
+//@ define sf(s: str) = val(fld(s, 1)) + ashift(16777216, val(fld(s, 0)) - 25)
+//@ define sx(s: str) = val(fld(s, 2))
+//@ define sy(s: str) = val(fld(s, 3))
+//@ define validsid(s: str) = nf(s) == 4 && isnum(fld(s, 0)) && isnum(fld(s, 1)) && isnum(fld(s, 2)) && isnum(fld(s, 3)) && 1 <= sz(s) && sz(s) <= 35 && 0 <= sx(s) && sx(s) < pow2(sz(s)) && 0 <= sy(s) && sy(s) < pow2(sz(s)) && 0 <= sf(s) && sf(s) < pow2(sz(s))
+//@ define sprel(a: str, b: str) = cellrel(sz(a), sf(a), sx(a), sy(a), sz(b), sf(b), sx(b), sy(b))
+//@ case CheckSpatialIdsArrayOverlap all-valid
+//@   props C05
+//@   requires forall k :: 0 <= k && k < len(spatialIds1) ==> validsid(spatialIds1[k])
+//@   requires forall k :: 0 <= k && k < len(spatialIds2) ==> validsid(spatialIds2[k])
+//@   ensures [no-error] r1 == nil
+//@   ensures [only-if] r0 ==> (exists i, j :: 0 <= i && i < len(spatialIds1) && 0 <= j && j < len(spatialIds2) && sprel(spatialIds1[i], spatialIds2[j]))
+//@   ensures [if] !r0 ==> (forall i, j :: 0 <= i && i < len(spatialIds1) && 0 <= j && j < len(spatialIds2) ==> !sprel(spatialIds1[i], spatialIds2[j]))
+//@   loop 0 invariant [tree-holds-first-list] forall z, f, x, y :: stored(tr, z, f, x, y) <==> (exists i :: 0 <= i && i < $i && z == sz(spatialIds1[i]) && f == sf(spatialIds1[i]) && x == sx(spatialIds1[i]) && y == sy(spatialIds1[i]))
+//@   loop 1 invariant [none-so-far] forall i, j :: 0 <= i && i < len(spatialIds1) && 0 <= j && j < $i ==> !sprel(spatialIds1[i], spatialIds2[j])
+//@ end
+
 //@ func CheckSpatialIdsOverlap
 //@   props C05 C15
 //@   nooverflow
 //@   requires (nf(spatialId1) == 4 && isnum(fld(spatialId1, 0)) ==> 0 <= val(fld(spatialId1, 0)) && val(fld(spatialId1, 0)) <= 35) && (nf(spatialId2) == 4 && isnum(fld(spatialId2, 0)) ==> 0 <= val(fld(spatialId2, 0)) && val(fld(spatialId2, 0)) <= 35)
 //@   ensures [false-on-error] r1 != nil ==> r0 == false
+//@ end
+//@ -- single-pair form: exactly the ancestor-or-equal relation
+//@ case CheckSpatialIdsOverlap all-valid
+//@   props C05
+//@   requires validsid(spatialId1) && validsid(spatialId2)
+//@   ensures [exact] r1 == nil && (r0 <==> sprel(spatialId1, spatialId2))
+//@ end
+
+//@ lemma C05_spatial_relation_symmetric_and_reflexive
+//@   props C05
+//@   reveal cellrel
+//@   var a str
+//@   var b str
+//@   assume validsid(a) && validsid(b)
+//@   assert [symmetric] sprel(a, b) <==> sprel(b, a)
+//@   assert [reflexive] sprel(a, a)
 //@ end
